@@ -18,6 +18,7 @@ import (
 
 	"github.com/hashicorp/raft"
 	lblog "github.com/liftbridge-io/liftbridge/server/logger"
+	proto "github.com/liftbridge-io/liftbridge/server/protocol"
 	"github.com/nats-io/nats.go"
 	"github.com/nats-io/nuid"
 
@@ -115,6 +116,12 @@ func (h *h3) startNode(i int) error {
 	if len(h.nodes) > 1 {
 		for _, x := range h.nodes {
 			peers = append(peers, x.id)
+		}
+	}
+	// whatever ended the previous incarnation (crash, panic in one of its tasks, failed stop), its file lock goes with it
+	if n.srv != nil {
+		if r, ok := n.srv.raft.Load().(*raftNode); ok && r != nil && r.store != nil {
+			releaseBoltLock(r.store)
 		}
 	}
 	var err error
@@ -268,6 +275,7 @@ func runH3(t *testing.T, prog *hx.Program, dec *simrt.Decider, verbose bool, nse
 			h.nodes = append(h.nodes, &simNode{idx: i, id: fmt.Sprintf("srv%d", i), dir: filepath.Join(dir, fmt.Sprintf("srv%d", i))})
 		}
 		s.Run(func() {
+			defer h.dumpRaft()
 			body(h)
 			s.Stop() // nothing is checked after the body: do not idle through timers of leftover tasks up to the horizon
 		})
@@ -381,4 +389,25 @@ func (l *spyLogger) Errorf(format string, v ...interface{}) {
 		}
 	}
 	l.Logger.Errorf(format, v...)
+}
+
+// dumpRaft writes the committed metadata operations and the snapshots into the run's log (verbose runs).
+func (h *h3) dumpRaft() {
+	if !h.verbose || h.cluster == nil {
+		return
+	}
+	for _, e := range h.cluster.Log {
+		if e.Type != raft.LogCommand {
+			h.s.Logf("raft %d: (type %d)", e.Index, e.Type)
+			continue
+		}
+		op := &proto.RaftLog{}
+		if op.Unmarshal(e.Data) == nil {
+			txt := strings.Join(strings.Fields(op.String()), " ")
+			if len(txt) > 160 {
+				txt = txt[:160]
+			}
+			h.s.Logf("raft %d: %s", e.Index, txt)
+		}
+	}
 }
